@@ -1197,6 +1197,8 @@ class Interp:
 
     def e_List(self, e, st):
         items = [self.eval(x, st) for x in e.elts]
+        if any(isinstance(x, VObj) for x in items):
+            return VTuple(items)       # a literal list of objects (e.g. the frames handed to pd.concat)
         kinds = {x.kind for x in items}
         if len(kinds) > 1 and not kinds <= {'int', 'real', 'bool'} and 'none' not in kinds:
             return VTuple(items)       # small heterogeneous list literal, e.g. [name, score]: modelled as a tuple
@@ -1806,6 +1808,9 @@ class Interp:
                     st._pre = saved
             if e.func.id in ('forall', 'exists') and self.spec_mode:
                 return self.quantify_lambda(e.func.id, e, st)
+        if isinstance(e.func, ast.Attribute) and isinstance(e.func.value, ast.Name) and e.func.value.id == 'set' and e.func.attr == 'union' \
+                and st.lookup('set') is None and len(e.args) == 1 and isinstance(e.args[0], ast.Starred) and not e.keywords:
+            return self.stubs.set_union_all(self, st, self.eval(e.args[0].value, st))
         f = self.eval(e.func, st)
         args = []
         for a in e.args:
